@@ -442,6 +442,10 @@ func genChainFacts(repo string) string {
 	comp := []string{"append(", "make(", "copy("}
 	g.fn("app_registerRoute", "`(*App).registerRoute`: before, handler, after", comp, cfWhole(&app, "App", "registerRoute"))
 	g.fn("app_wrapHandler", "the closure `(*App).wrapHandler` returns", []string{"defer", "›(‹", "return"}, cfClosureM(&app, "App", "wrapHandler"))
+	g.fn("app_WithBefore", "the option `app.WithBefore` returns", comp, cfClosure(&app, "WithBefore"))
+	g.fn("app_WithAfter", "the option `app.WithAfter` returns", comp, cfClosure(&app, "WithAfter"))
+	g.fn("app_RouteOptions", "the option `app.RouteOptions` returns", []string{"range ", "›(‹"}, cfClosure(&app, "RouteOptions"))
+	g.fn("app_registerRoute_options", "`(*App).registerRoute`: the options are applied in order to an empty routeConfig", []string{"routeConfig{", "range ", "›(‹"}, cfWhole(&app, "App", "registerRoute"))
 	g.fn("app_group_addRoute", "`(*app.Group).addRoute`: group middleware, before, handler, after", comp, cfWhole(&app, "Group", "addRoute"))
 	g.fn("app_group_Group", "`(*app.Group).Group`", comp, cfWhole(&app, "Group", "Group"))
 	g.fn("app_group_Use", "`(*app.Group).Use`", comp, cfWhole(&app, "Group", "Use"))
